@@ -36,6 +36,12 @@ def exc_outcome(e, roots=()):
             [c.state.state_id, c.term.name, [p.prod_id for p in c.productions]]
             for c in e.conflicts
         ]
+    elif type(e).__name__ == "DynamicDisambiguationConflict":
+        # its message prints LR items with their follow *sets* (hash-seed
+        # dependent free text): keep the structured part only
+        out["state"] = getattr(getattr(e, "state", None), "state_id", None)
+        out["token"] = str(getattr(e, "token", None))
+        out["actions"] = [str(a) for a in getattr(e, "actions", [])]
     else:
         try:
             out["str"] = _strip(str(e), roots)
